@@ -3,8 +3,8 @@
 //!
 //! The effect reads signal `s` and resource `d` (synchronously). Before the threads start, `s`
 //! is written once so the effect is due to re-run.
-//! case  (5 sched)   thread 0 = effect executor, thread 1 = completer of `d`
-//! obs   ((effect log: (s d_or_-1) per run) (status per thread) hang)
+//! case  (5 withlog sched)   thread 0 = effect executor, thread 1 = completer of `d`
+//! obs   withlog=0: (hang)    withlog=1: ((effect log: (s d_or_-1) per run) (status per thread) hang)
 use crate::{ctl::Ctl, exec};
 use futures::channel::oneshot;
 use reactive_graph::{
@@ -14,7 +14,8 @@ use std::sync::{Arc, Mutex};
 use vsexp::{Lst, Num, Sexp};
 
 pub fn run(case: &Sexp) -> Sexp {
-    let sched = case.at(1).nums();
+    let withlog = case.at(1).num() != 0;
+    let sched = case.at(2).nums();
     let owner = Owner::new();
     owner.set();
     let _ = exec::take_inbox();
@@ -115,6 +116,9 @@ pub fn run(case: &Sexp) -> Sexp {
         std::mem::forget(eff);
         std::mem::forget(d);
         std::mem::forget(owner);
+    }
+    if !withlog {
+        return Lst(vec![Num(hang as i64)]);
     }
     Lst(vec![
         Lst(lg.into_iter().map(|(x, y)| Lst(vec![Num(x), Num(y)])).collect()),
